@@ -71,17 +71,49 @@ def generate(rng, tier, n):
             elif r < 0.93:
                 ops.append(["upd_map", [[k, rng.randint(0, 4)] for k in
                                         rng.sample(range(nkeys), rng.randint(0, min(3, nkeys)))],
-                            rng.choice(["dict", "kwargs", "tc"])])
+                            rng.choice(["dict", "kwargs", "tc", "dict", "kwargs"] + sorted(MAPPING_KINDS))])
             else:
                 # update(source, **kw): a positional source (iterable or mapping) together with keywords
                 if rng.random() < 0.5:
                     first = ["upd_iter", [pick() for _ in range(rng.randint(0, 4))], rng.choice(["list", "tuple", "gen", "iter"])]
                 else:
                     first = ["upd_map", [[k, rng.randint(0, 3)] for k in rng.sample(range(nkeys), rng.randint(0, min(3, nkeys)))],
-                             rng.choice(["dict", "tc"])]
+                             rng.choice(["dict", "tc"] + sorted(MAPPING_KINDS))]
                 kw = [[k, rng.randint(0, 3)] for k in rng.sample(range(nkeys), rng.randint(1, min(3, nkeys)))]
                 ops.append(["upd_both", first, kw])
         yield {"w": w, "threshold": t.hex(), "n": rng.randint(1, 4), "probe": rng.randrange(nkeys), "ops": ops}
+
+
+class _ItemsOnly:
+    """duck-typed mapping: nothing but items()"""
+    def __init__(self, d):
+        self._d = dict(d)
+
+    def items(self):
+        return list(self._d.items())
+
+
+class _IterItemsOnly:
+    """duck-typed (Python-2 style) mapping: nothing but iteritems(); iterating it would give wrong keys"""
+    def __init__(self, d):
+        self._d = dict(d)
+
+    def iteritems(self):
+        return iter(list(self._d.items()))
+
+    def __iter__(self):
+        raise AssertionError("iterated although iteritems() is there")
+
+
+def _mapping_kinds():
+    import collections
+    import types
+    return {"ordered": collections.OrderedDict, "counter": collections.Counter, "proxy": lambda d: types.MappingProxyType(dict(d)),
+            "chainmap": lambda d: collections.ChainMap(dict(d)), "userdict": collections.UserDict,
+            "items_only": _ItemsOnly, "iteritems_only": _IterItemsOnly}
+
+
+MAPPING_KINDS = _mapping_kinds()
 
 
 def _arg(kind, ks):
@@ -111,6 +143,8 @@ def run_impl(case):
         def source(o):
             if o[0] == "upd_iter":
                 return _arg(o[2], [key(k) for k in o[1]])
+            if o[2] in MAPPING_KINDS:
+                return MAPPING_KINDS[o[2]]({key(k): c for k, c in o[1]})
             if o[2] == "tc":
                 # another ThresholdCounter as the source mapping (w large: nothing dropped)
                 src = ThresholdCounter(0.0001)
